@@ -19,7 +19,7 @@ import yaml
 from harness.dy import dy
 from harness.lensgen import quiet
 
-REPO = os.environ.get("OPTILAND_REPO", "/repo")
+REPO = os.environ.get("VERIF_REPO") or os.environ.get("OPTILAND_REPO", "/repo")     # the tree under test
 CSV = os.path.join(REPO, "database", "catalog_nk.csv")
 BASE = os.path.join(REPO, "database", "data-nk")
 NPY = os.path.join(REPO, "database", "glass_model_coefficients.npy")
@@ -171,6 +171,20 @@ def pick_wavelengths(row, blocks, rnd, abbe):
                 m = 0.5 * (a[0] + b[0])
                 if lo <= m <= hi:
                     ws.append((m, ""))
+        # one wavelength listed twice with different values: interpolation on either side of the
+        # step starts from the row next to that side (probe both sides and the node itself)
+        srt = sorted(tab, key=lambda r: r[0])
+        for q in range(len(srt) - 1):
+            if srt[q][0] == srt[q + 1][0] and list(srt[q][1:]) != list(srt[q + 1][1:]):
+                w0 = srt[q][0]
+                below = [r[0] for r in srt if r[0] < w0]
+                above = [r[0] for r in srt if r[0] > w0]
+                for m in ([0.5 * (below[-1] + w0)] if below else []) + ([0.5 * (w0 + above[0])] if above else []):
+                    if lo <= m <= hi:
+                        ws.append((m, ""))
+    # round wavelengths: where integer powers of small integers coincide (0**0 = 1**q = 1), an absent
+    # term of a dispersion formula must not turn into 0/0
+    ws += [(w, "") for w in (1.0, 2.0, 0.5) if lo <= w <= hi]
     if abbe:
         ws += [(w, name) for name, w in LINES]
     return ws
